@@ -32,7 +32,7 @@ func C02(c *Ctx) {
 	p.StateSpec = func(r *rand.Rand) mon.Spec { return mon.Spec{S: pick(r, 1, 2, 3)} }
 	cfg := &MCConfig{
 		Profile: p, Grammars: c02Strata(), NGrammars: c.N(200, 2000),
-		FlagSets:  [][]string{{}, {"-optimize-parser"}},
+		FlagSets:  [][]string{{}, {"-optimize-parser"}, {"-receiver-name", "cur"}},
 		InputsPer: c.N(90, 200), ExhaustLimit: c.N(150, 800), ExhaustLen: 6,
 		OptSets:     []OptSet{{Name: "default"}, {Name: "memoize", Memo: true}},
 		Entrypoints: true, DebugEvery: 4,
@@ -566,7 +566,7 @@ func C12(c *Ctx) {
 		Profile: p, Grammars: c12Strata(), NGrammars: c.N(120, 2000),
 		FlagSets:  [][]string{{}, {"-optimize-parser"}, {"-optimize-basic-latin"}},
 		InputsPer: c.N(90, 200), ExhaustLimit: c.N(250, 1200), ExhaustLen: 7,
-		OptSets: []OptSet{{Name: "default"}, {Name: "file", File: "f.peg"}},
+		OptSets: []OptSet{{Name: "default"}, {Name: "file", File: "f.peg"}, {Name: "stats-reused", StatsReused: true}},
 		Compare: CmpNoMatch | CmpOK,
 		NonTrivial: func(m *ref.Result) bool {
 			if !m.NoMatchErr {
@@ -699,6 +699,7 @@ func C14(c *Ctx) {
 	cfg := &MCConfig{
 		Profile: p, Grammars: strata, NGrammars: c.N(300, 2500), ReverseRules: true,
 		FlagSets:  [][]string{{}, {"-optimize-parser"}},
+		OptSets:   []OptSet{{Name: "default"}, {Name: "stats", Stats: true}, {Name: "stats-reused", StatsReused: true}},
 		InputsPer: c.N(90, 200), ExhaustLimit: c.N(200, 800), ExhaustLen: 6,
 		Compare:    CmpVal | CmpEnd | CmpTrace | CmpOK,
 		NonTrivial: func(m *ref.Result) bool { return m.KindsEval[gast.Throw] >= 1 && m.KindsEval[gast.Recovery] >= 1 },
@@ -819,7 +820,7 @@ func C17(c *Ctx) {
 		Profile: p, Grammars: c17Strata(), NGrammars: c.N(100, 1200),
 		FlagSets:  [][]string{{}, {"-optimize-parser"}, {"-optimize-basic-latin"}},
 		InputsPer: c.N(140, 300), ExhaustLimit: 0, Invalid: true,
-		OptSets:    []OptSet{{Name: "default"}, {Name: "allow", AllowInvalid: true}},
+		OptSets:    []OptSet{{Name: "default"}, {Name: "allow", AllowInvalid: true}, {Name: "reader", Reader: true}, {Name: "reader-allow", Reader: true, AllowInvalid: true}},
 		Compare:    CmpVal | CmpEnd | CmpTrace | CmpInvalid | CmpErrs | CmpOK | CmpInput,
 		NonTrivial: func(m *ref.Result) bool { return len(m.InvalidAt) >= 1 },
 		StalePS:    "F02-stale-pred-pos",
@@ -827,6 +828,11 @@ func C17(c *Ctx) {
 			var out [][]byte
 			for _, s := range gast.InvalidSeqs {
 				out = append(out, s, append([]byte("a"), s...), append(append([]byte("a"), s...), 'b'))
+			}
+			// inputs that begin like a byte order mark of another encoding (they are just two invalid bytes)
+			// or with the UTF-8 one (a valid rune)
+			for _, pre := range []string{"\xff\xfe", "\xfe\xff", "\xef\xbb\xbf", "\xff\xfe\x00\x00"} {
+				out = append(out, []byte(pre), []byte(pre+"a"), []byte(pre+"ab\xff"), []byte(pre+"a\x00b\x00"))
 			}
 			return out
 		},
